@@ -1,4 +1,5 @@
 import GapicModel.Model.Names
+import GapicModel.Pinned.Funcs
 /-
 C12 — reserved-word and colliding names are disambiguated without altering the wire.
 -/
@@ -147,5 +148,16 @@ theorem file_name_kept (visited : List String) (fuel : Nat) (n : String)
     (h1 : isInvalidModule n = false) (h2 : n ∉ visited) :
     disambFile visited (fuel + 1) n = n := by
   simp [disambFile, h1, h2]
+
+/-! ## `toSnakeCase` IS the code's current `to_snake_case` (translated by harness/pyfun2lean.py, re-bridged on every run) -/
+
+section Translated
+open GapicModel.PyRt
+
+theorem toSnakeCase_is_translated (s : List Char) : toSnakeCase s = Pinned.Funcs.to_snake_case s := by
+  simp only [toSnakeCase, Pinned.Funcs.to_snake_case, reSub, PyRt.lower]
+  rfl
+
+end Translated
 
 end GapicModel.Props.C12
